@@ -60,6 +60,20 @@ class Driver:
         return line
 
     def request(self, src, ops, timeout=None, **opts):
+        """A deadline that passes is retried once, alone in a fresh process, with a deadline at least four
+        times longer: on a loaded machine only a reproduced expiry is a 'timeout'."""
+        r = self._request(src, ops, timeout, **opts)
+        if "timeout" in r and not opts.get("_no_retry"):
+            self.slow_retries = getattr(self, "slow_retries", 0) + 1
+            r2 = self._request(src, ops, max(60.0, 4 * (timeout or self.timeout)), **opts)
+            if "timeout" in r2:
+                r2["confirmed"] = True
+            else:
+                r2["retried_after_timeout"] = True
+            return r2
+        return r
+
+    def _request(self, src, ops, timeout=None, **opts):
         if self.p is None or self.p.poll() is not None:
             self._start()
         self.n += 1
